@@ -146,7 +146,10 @@ class RichChkUprpTranscoder(
 
     @classmethod
     def _is_unused_cuwp_slot(cls, decoded_cuwp_slot: DecodedCuwpSlot) -> bool:
-        """Filter out empty/placeholder locations from the DecodedUprpSection.
+        """Filter out empty/placeholder slots from the DecodedUprpSection.
+
+        The owner player byte is not looked at: it is not kept by RichCuwpSlot and is
+        always written as 0, so a slot holding nothing else is a placeholder.
 
         :param decoded_cuwp_slot:
         :return:
@@ -154,7 +157,6 @@ class RichChkUprpTranscoder(
         return (
             decoded_cuwp_slot.valid_special_properties_flags == 0
             and decoded_cuwp_slot.valid_unit_properties_flags == 0
-            and decoded_cuwp_slot.owner_player == 0
             and decoded_cuwp_slot.hitpoints_percentage == 0
             and decoded_cuwp_slot.shieldpoints_percentage == 0
             and decoded_cuwp_slot.energypoints_percentage == 0
